@@ -65,7 +65,7 @@ def runOpConvert (op : String) (args : List String) : String :=
             let o : OutOpts := { exportFour := destv4 == "t" }
             let carry := fun (t : Tree) => match destfmt with
               | "export" => carryExportRoot o t
-              | "tigerxml" => carryTiger t
+              | "tigerxml" => carryTigerRoot t
               | _ => carryBrackets o true t
             let fixWords := fun (src d : Tree) => if destfmt == "discobrackets" then
                 Tree.mapFields (fun s f => match s with | leaf n _ => { f with word := (src.findLeaf n).bind (·.fields.word) } | _ => f) d else d
